@@ -45,6 +45,7 @@ CATALOGUE = [
     ("init-length-unstripped", "C05", "text.py", "self._length: int = len(sanitized_text)", "self._length: int = len(text)"),
     ("divide-order-by-start", "C05", "text.py", "            line_spans.sort(key=itemgetter(0))", "            line_spans.sort(key=lambda item: item[1].start)"),
     # ---- C02
+    ("full-justify-restyles-every-gap", "C02", "containers.py", "                            Text(\" \", style=line.get_style_at_offset(console, offset))", "                            Text(\" \", style=line.style)"),
     ("wrap-position-len", "C02", "_wrap.py", "line_position = _cell_len(word)\n        else:", "line_position = len(word)\n        else:"),
     ("truncate-ellipsis-width", "C01", "text.py", "self.plain = set_cell_size(self.plain, max_width - 1) + \"…\"", "self.plain = set_cell_size(self.plain, max_width) + \"…\""),
     # ---- C03
